@@ -517,7 +517,7 @@ def no_identity_test_against_literals(ctx, rule, classes=None):
     same object.  A tuple display is a new object every time (the test is constant), equal strings and ints built at run
     time are usually different objects: the branch taken does not depend on the value.  Only None, True, False and
     Ellipsis are compared by identity."""
-    model = ctx.model
+    model = ctx.model.plain()       # the sources as written: helper expansion substitutes constant arguments for parameters
     n = 0
     bad = []
     for fi in model.funcs.values():
